@@ -148,6 +148,21 @@ func gen(tier string) []proto.Item {
 				}
 				items = append(items, proto.Item{Scn: s, Class: fmt.Sprintf("%s/%s/no-latency-replies", v, rtag)})
 			}
+			// a reply slower than the per-probe timeout parameter but well inside the run's budget (timeout + probes x delay):
+			// the budget, not the timeout, is the listening window of the parallel engine
+			// (a range of 30 TTLs makes the budget 600 ms, so that 304 ms is more than one poll interval before the deadline)
+			if vi.Parallel && r.first == 1 && r.last == 4 {
+				for _, d := range []int{3, 0} {
+					s := base(v, rng{1, 30}, d)
+					s.Hops = map[int]proto.HopSpec{1: {DelayUs: 300000 + 4000}}
+					if d == 0 {
+						for t := 5; t <= 30; t++ {
+							s.Hops[t] = proto.HopSpec{Silent: true}
+						}
+					}
+					items = append(items, proto.Item{Scn: s, Class: fmt.Sprintf("%s/r1-30/slower-than-timeout-inside-budget/dest-%d", v, d)})
+				}
+			}
 			// replies that arrive late but inside the budget (one poll interval before the deadline)
 			if vi.Parallel {
 				s := base(v, r, dest)
